@@ -188,8 +188,10 @@ def run(prop, tier, seed, replay=None):
             what = ""
             st = f.get("state") or ""
             import re
-            m = re.findall(r'what \|-> "([^"]+)"', st)
-            what = "; ".join(sorted(set(m))) if m else f["name"]
+            tags = re.findall(r'what \|->\s*"([^"]+)",\s*p \|-> \{([^}]*)\}', st) + \
+                [(w, ps) for ps, w in re.findall(r'p \|-> \{([^}]*)\},\s*what \|->\s*"([^"]+)"', st)]
+            m = sorted(set(w for w, ps in tags if prop in ps))
+            what = "; ".join(m) if m else f["name"]
             rp = vlib.save_replay(prop, "%s-%s-%s" % (mode, s, f["seg"]), {"trace.ndjson": "\n".join(segl) + "\n", "state.txt": st},
                                   dict(property=prop, mode=mode, seed=s, scenario=f["seg"], events=nev, line=f["line"][:2000], tags=m))
             v.violation(what[:120], "%s (mode %s seed %s scenario %s) at event %s" % (what, mode, s, f["seg"], f["line"][:300]), rp)
